@@ -157,6 +157,9 @@ structure Result where
   mods : List Char
   matchC : Bool
   matchA : Bool
+  back : Option Bytes
+  matchBC : Bool
+  matchCA : Bool
 
 def runCase (D : DHGroup) {K : Type} [DecidableEq K] (kdf : D.X → K) (A : AEAD K)
     (cs : Case) (mods : List Mod) : Result :=
@@ -175,7 +178,10 @@ def runCase (D : DHGroup) {K : Type} [DecidableEq K] (kdf : D.X → K) (A : AEAD
     wrong := verdictChar cs.pt (decrypt A kc ct)
     mods := mods.map fun m => verdictChar cs.pt (decrypt A kb (applyMod ct m))
     matchC := isKeyMatching D pubA cs.c
-    matchA := isKeyMatching D pubA cs.a }
+    matchA := isKeyMatching D pubA cs.a
+    back := decrypt A ka (encrypt A kb cs.nonce cs.pt)
+    matchBC := isKeyMatching D pubB cs.c
+    matchCA := isKeyMatching D (pubOf D cs.c) cs.a }
 
 /-! ## Monitor: the property on what the implementation did.
 `sameX` says whether the outsider's shared x-coordinate equals the parties' (decided in the exponent
@@ -194,6 +200,9 @@ structure ImplObs where
   mods : List Char
   matchC : Bool
   matchA : Bool
+  backOk : Bool
+  matchBC : Bool
+  matchCA : Bool
 
 def modChanges (ctLen : Nat) : Mod → Bool
   | .xor _ mask => mask != 0
@@ -210,5 +219,8 @@ def holds (N : Nat) (cs : Case) (mods : List Mod) (o : ImplObs) : Bool :=
         if modChanges (cs.pt.length + nonceSize + 16) m then v == 'r' else v == 'o')
   && (o.matchC == decide (cs.c % N = cs.a % N))
   && o.matchA
+  && o.backOk
+  && (o.matchBC == decide (cs.c % N = cs.b % N))
+  && (o.matchCA == decide (cs.a % N = cs.c % N))
 
 end KeepVerif.C41
